@@ -47,6 +47,89 @@ async fn lib_attempt(addr: &str, ca: &Path, cert: &Path, key: &Path, topic: &str
     }
 }
 
+/// An impostor takes over the server's address while a client is connected (a UDP relay is re-targeted): the client's
+/// keep-alive layer retries the connection several times against the same, wrongly certified peer. Every one of those
+/// handshakes has to be refused — not only the first.
+async fn impostor_after_reconnect(a: &Certs, b: &Certs, round: usize) -> (String, bool, std::result::Result<(), String>) {
+    use futures::SinkExt;
+    let cell = "lib: client trusting CA-A, connected to server A, loses its connection and finds an impostor (certificate from CA-B, accepts CA-A clients) on the same address; 5 reconnect attempts".to_string();
+    let inc = |e: String| (cell.clone(), false, Err(format!("INCONCLUSIVE {}", e)));
+    let sa = match start_server(a) {
+        Ok(s) => s,
+        Err(e) => return inc(format!("server A: {e}")),
+    };
+    let imp = match start_server_with(&a.server_ca(), &b.server_cert(), &b.server_key()) {
+        Ok(s) => s,
+        Err(e) => return inc(format!("impostor: {e}")),
+    };
+    let relay = match super::c12::Relay::start(sa.addr).await {
+        Ok(r) => r,
+        Err(e) => return inc(format!("relay: {e}")),
+    };
+    let topic = format!("/c15r{}/takeover", round);
+    // what reaches the impostor: a raw subscriber connected to it directly
+    let imp_conn = match raw_connect_with(imp.addr, raw_client_config(&read_der(&b.client_ca()).unwrap(), ClientIdentity::Cert(read_der(&a.client_cert()).unwrap(), read_der(&a.client_key()).unwrap())).unwrap()).await {
+        Ok(c) => c,
+        Err(e) => return inc(format!("connect to the impostor: {e}")),
+    };
+    let tn = selium_protocol::TopicName::try_from(topic.as_str()).unwrap();
+    let (mut imp_sub, r) = match imp_conn.open(Frame::RegisterSubscriber(selium_protocol::SubscriberPayload { topic: tn, retention_policy: 0, operations: vec![] }), Duration::from_secs(8)).await {
+        Ok(x) => x,
+        Err(e) => return inc(format!("impostor-side subscriber: {e}")),
+    };
+    if r != Some(Frame::Ok) {
+        return inc(format!("impostor-side subscriber answered {:?}", r));
+    }
+    let client = selium::custom()
+        .keep_alive(5_000u64)
+        .unwrap()
+        .backoff_strategy(selium::keep_alive::BackoffStrategy::constant().with_max_attempts(5).with_step(Duration::from_millis(40)))
+        .endpoint(&relay.addr.to_string())
+        .with_certificate_authority(a.client_ca())
+        .and_then(|b2| b2.with_cert_and_key(a.client_cert(), a.client_key()));
+    let client = match client {
+        Ok(b2) => match b2.connect().await {
+            Ok(c) => c,
+            Err(e) => return inc(format!("connect through the relay: {e}")),
+        },
+        Err(e) => return inc(format!("client builder: {e}")),
+    };
+    let mut publ = match client.publisher(&topic).with_encoder(StringCodec).open().await {
+        Ok(p) => p,
+        Err(e) => return inc(format!("open publisher: {e}")),
+    };
+    if publ.send("to the real server".to_string()).await.is_err() {
+        return inc("send on the healthy connection failed".into());
+    }
+    // the address changes hands
+    relay.retarget(imp.addr);
+    client.verif_close_connection().await;
+    let mut outcomes = vec![];
+    for k in 0..8 {
+        let r = tokio::time::timeout(Duration::from_secs(20), publ.send(format!("top secret #{}", k))).await;
+        outcomes.push(match r {
+            Ok(Ok(())) => "Ok".to_string(),
+            Ok(Err(e)) => format!("Err({})", e),
+            Err(_) => "no return within 20 s".to_string(),
+        });
+        tokio::time::sleep(Duration::from_millis(60)).await;
+    }
+    let mut leaked = vec![];
+    while let Ok(Some(Ok(Frame::Message(m)))) = tokio::time::timeout(Duration::from_millis(400), imp_sub.next()).await {
+        leaked.push(String::from_utf8_lossy(&m.message).to_string());
+    }
+    relay.stop();
+    sa.stop();
+    imp.stop();
+    if leaked.is_empty() {
+        (cell, false, Err(format!("refused: nothing reached the impostor; send() results {:?}", outcomes)))
+    } else {
+        // "observed Ok": the client talked to a server whose certificate does not chain to its CA
+        let _ = &outcomes;
+        (format!("{} — the impostor's subscriber received {:?}", cell, leaked), false, Ok(()))
+    }
+}
+
 /// The server is started (as a child process, like the real binary) with a `--ca` path that does not exist, from a
 /// working directory that holds another hierarchy's certificates at the stock location `certs/server/…` (what
 /// `gen-certs` writes by default). It must not come up trusting that other hierarchy: either it refuses to start, or
@@ -263,6 +346,9 @@ pub fn run(rep: &mut StageReport, tier: &str, _seed: u64, exe: &str) {
             let _ = std::fs::write(&deployed, read_der(&a.client_ca()).unwrap());
             v.push(("lib: the file is switched back to CA-A (cert B) → server B".to_string(), false, lib_attempt(&sb.endpoint(), &deployed, &b.client_cert(), &b.client_key(), &t(25)).await));
             v.push(missing_ca_file(exe, &a, &b, round).await);
+            if round == 0 {
+                v.push(impostor_after_reconnect(&a, &b, round).await);
+            }
             let _ = std::fs::remove_dir_all(&pem_dir);
             sa.stop();
             sb.stop();
